@@ -47,7 +47,7 @@ class Part:
 
 
 class Region:
-    __slots__ = ('name', 'kind', 'extent', 'elem', 'alloc', 'freed', 'ro', 'align', 'owner')
+    __slots__ = ('name', 'kind', 'extent', 'elem', 'alloc', 'freed', 'ro', 'align', 'owner', 'in_extent')
 
     def __init__(s, name, kind, extent=None, elem='any', alloc=None, ro=False, align=None):
         s.name = name
@@ -59,6 +59,7 @@ class Region:
         s.ro = ro
         s.align = align
         s.owner = None
+        s.in_extent = None   # bytes of a caller buffer that are declared input; beyond it the buffer is output-only
 
     def __repr__(s):
         return '<%s %s>' % (s.kind, s.name)
@@ -257,6 +258,9 @@ class Interp:
             raise Incomplete('read of %d bytes over a %d-byte cell at %s' % (size, sz, ptr))
         r = ptr.reg
         if r.kind == 'param':
+            if r.in_extent is not None and isinstance(k[1], int) and k[1] >= r.in_extent:
+                s.sink('uninit', 'read of %d bytes at %s+%d before any write: outside the declared input extent (%d bytes) of an in/out buffer' % (
+                    size, r.name, k[1], r.in_extent))
             s._check_alias_read(r, k[1])
             return s.atom_for(r, k[1], size)
         if r.kind == 'global':
